@@ -253,15 +253,23 @@ Fixpoint list_eqb (a b : list nat) : bool :=
    of uids the harness could not know in advance (`known` = uids present before the call and
    uids of factory products; any other uid was drawn by uuid4 inside the call).  Nodes with a
    known uid are identified by it; nodes with an unknown uid by their label and, recursively,
-   their parents (to depth |heap| + 1: crossovers can build cycles through such nodes, the
-   comparison is then a bounded bisimulation).  Order of `nodes` and of `nodes_from` is not
-   compared (the property speaks of sets), multiplicities are (through the lengths). *)
+   their parents (to a depth of the number of such nodes + 1: crossovers can build cycles
+   through them, the comparison is then a bounded simulation: every parent of the model's node
+   has a counterpart among the observed node's parents, and the lists have equal lengths).
+   Order of `nodes` and of `nodes_from` is not compared (the property speaks of sets),
+   multiplicities are (through the lengths). *)
 Section Sim.
   Variable known : list nat.
   Variables hm ho : heap.
 
   Definition ukey (h : heap) (r : ref) : option nat :=
     let u := uid (get h r) in if memb u known then Some u else None.
+
+  (* vm_compute is call-by-value: conjunctions are written with `if` so that they short-cut *)
+  Fixpoint lexists {A} (f : A -> bool) (l : list A) : bool :=
+    match l with [] => false | a :: t => if f a then true else lexists f t end.
+  Fixpoint lforall {A} (f : A -> bool) (l : list A) : bool :=
+    match l with [] => true | a :: t => if f a then lforall f t else false end.
 
   Fixpoint sim (fuel : nat) (a b : ref) : bool :=
     match fuel with
@@ -272,23 +280,27 @@ Section Sim.
                            | None, None => sim k p q
                            | _, _ => false
                            end in
-      (label (get hm a) =? label (get ho b)) &&
-      Bool.eqb (uniq (get hm a)) (uniq (get ho b)) &&
-      match ukey hm a, ukey ho b with
-      | Some u, Some v => u =? v
-      | None, None => true
-      | _, _ => false
-      end &&
-      (length (pars hm a) =? length (pars ho b)) &&
-      forallb (fun p => existsb (fun q => pm p q) (pars ho b)) (pars hm a) &&
-      forallb (fun q => existsb (fun p => pm p q) (pars hm a)) (pars ho b)
+      if negb (label (get hm a) =? label (get ho b)) then false
+      else if negb (Bool.eqb (uniq (get hm a)) (uniq (get ho b))) then false
+      else if negb (match ukey hm a, ukey ho b with
+                    | Some u, Some v => u =? v
+                    | None, None => true
+                    | _, _ => false
+                    end) then false
+      else if negb (length (pars hm a) =? length (pars ho b)) then false
+      else lforall (fun p => lexists (fun q => pm p q) (pars ho b)) (pars hm a)
     end.
 
+  (* the depth of the comparison through nodes with unknown uids: their number + 1 *)
+  Definition unknown_count (gm : graph) : nat :=
+    length (filter (fun r => match ukey hm r with None => true | Some _ => false end) gm).
+
   Definition state_sim (gm go : graph) : bool :=
-    let f := S (length hm) in
-    (length gm =? length go) &&
-    forallb (fun a => existsb (fun b => sim f a b) go) gm &&
-    forallb (fun b => existsb (fun a => sim f a b) gm) go.
+    let f := S (unknown_count gm) in
+    if negb (length gm =? length go) then false
+    else if lforall (fun a => lexists (fun b => sim f a b) go) gm
+         then lforall (fun b => lexists (fun a => sim f a b) gm) go
+         else false.
 End Sim.
 
 Definition agree_state (known : list nat) (r : res state) (o : obs) : bool :=
